@@ -341,6 +341,15 @@ func runC34(c *Ctx) {
 					_, sa := callArgs(cl.Common())
 					parts[render(sa[0])] = true
 				}
+				// or the first two parts summed straight into a fresh big.Int
+				if cl, ok := using.(*ssa.Call); ok && calleeName(cl.Common()) == "(*math/big.Int).Add" {
+					if rcv, sa := callArgs(cl.Common()); len(sa) == 2 {
+						if _, fresh := rcv.(*ssa.Alloc); fresh {
+							parts[render(sa[0])] = true
+							parts[render(sa[1])] = true
+						}
+					}
+				}
 				for _, b := range fn.Blocks {
 					for _, in := range b.Instrs {
 						cl, ok := in.(*ssa.Call)
